@@ -276,8 +276,12 @@ impl Enforcer {
         let policies = p_ast.get_policy();
         let (policy_len, scope_len) = (policies.len(), scope.len());
 
+        // the effect column of `p2` is the token `p2_eft`; the effector only
+        // knows the unsuffixed spelling
+        let eft_token = format!("{}_eft", ctx.p_type);
+        let e_value = e_ast.value.replace(&eft_token, "p_eft");
         let mut eft_stream =
-            self.eft.new_stream(&e_ast.value, max(policy_len, 1));
+            self.eft.new_stream(&e_value, max(policy_len, 1));
         let m_ast_compiled = self
             .engine
             .compile_expression(escape_eval(&m_ast.value))
@@ -319,7 +323,7 @@ impl Enforcer {
             let eval_result = self
                 .engine
                 .eval_ast_with_scope::<bool>(&mut scope, &m_ast_compiled)?;
-            let eft = match p_ast.tokens.iter().position(|x| x == "p_eft") {
+            let eft = match p_ast.tokens.iter().position(|x| x == &eft_token) {
                 Some(j) if eval_result => {
                     let p_eft = &pvals[j];
                     if p_eft == "deny" {
